@@ -1,4 +1,5 @@
 import RPVerif.Model.Raptor
+import RPVerif.Lemmas.Raptor
 
 /-!
 # C20 — Raptor workers and masters account for every request
@@ -6,11 +7,342 @@ import RPVerif.Model.Raptor
 namespace RPVerif.C20
 open List RPVerif.Raptor
 
-/-- exit code 0 and only exit code 0 gives DONE; an absent exit code gives FAILED -/
+/-! ## (1) the allocator: never two requests on one core or GPU; everything comes back -/
+
+/-- the worker's bookkeeping: busy flags and the slots of the requests that are running -/
+structure WS where
+  res  : Res
+  live : List Slots
+
+def WInv (w : WS) : Prop :=
+  AInv w.res.cores (w.live.map (·.cores)) ∧ AInv w.res.gpus (w.live.map (·.gpus))
+
+inductive AOp where
+  | accept (cores gpus : Nat)       -- a request arrives (`_alloc`)
+  | finish (s : Slots)              -- a running request finishes, fails or times out (`_dealloc`)
+
+/-- one step of the worker; a request that must wait or that is refused changes nothing -/
+def wstep (w : WS) : AOp → WS
+  | .accept c g => match alloc w.res c g with
+                   | .ok r s => { res := r, live := s :: w.live }
+                   | _       => w
+  | .finish s   => if s ∈ w.live then
+                     (match dealloc w.res s with
+                      | some r => { res := r, live := w.live.erase s }
+                      | none   => w)
+                   else w
+
+theorem alloc_ok (r r' : Res) (c g : Nat) (s : Slots) (h : alloc r c g = .ok r' s) :
+    r' = { cores := setAll r.cores (pick r.cores 0 c) true, gpus := setAll r.gpus (pick r.gpus 0 g) true }
+    ∧ s = { cores := pick r.cores 0 c, gpus := pick r.gpus 0 g }
+    ∧ c ≤ countFree r.cores ∧ g ≤ countFree r.gpus ∧ 1 ≤ c := by
+  unfold alloc at h
+  split at h
+  · cases h
+  · split at h
+    · cases h
+    · rename_i h1 h2
+      simp only at h
+      injection h with hr hs
+      refine ⟨hr.symm, hs.symm, ?_, ?_, ?_⟩ <;> omega
+
+theorem winv_step (w : WS) (op : AOp) (h : WInv w) : WInv (wstep w op) := by
+  cases op with
+  | accept c g =>
+    simp only [wstep]
+    cases ha : alloc w.res c g with
+    | assertion => exact h
+    | wait => exact h
+    | ok r s =>
+      obtain ⟨hr, hs, _⟩ := alloc_ok _ _ _ _ _ ha
+      subst hr; subst hs
+      exact ⟨(AInv_alloc _ _ c h.1).1, (AInv_alloc _ _ g h.2).1⟩
+  | finish s =>
+    simp only [wstep]
+    by_cases hs : s ∈ w.live
+    · rw [if_pos hs]
+      cases hd : dealloc w.res s with
+      | none => exact h
+      | some r =>
+        obtain ⟨l1, l2, _, hsplit, herase⟩ := exists_erase_eq hs
+        unfold dealloc at hd
+        split at hd
+        · injection hd with hd
+          subst hd
+          simp only [herase]
+          have h1 := h.1; have h2 := h.2
+          rw [hsplit] at h1 h2
+          simp only [map_append, map_cons] at h1 h2
+          refine ⟨?_, ?_⟩
+          · simpa using (AInv_dealloc _ _ _ _ h1).2
+          · simpa using (AInv_dealloc _ _ _ _ h2).2
+        · cases hd
+    · rw [if_neg hs]; exact h
+
+/-- what a finishing request gives back is accepted: `_dealloc` never hits its assertion for a live request -/
+theorem dealloc_live (w : WS) (s : Slots) (h : WInv w) (hs : s ∈ w.live) : (dealloc w.res s).isSome = true := by
+  obtain ⟨l1, l2, _, hsplit, _⟩ := exists_erase_eq hs
+  have h1 := h.1; have h2 := h.2
+  rw [hsplit] at h1 h2
+  simp only [map_append, map_cons] at h1 h2
+  have c1 := (AInv_dealloc _ _ _ _ h1).1
+  have c2 := (AInv_dealloc _ _ _ _ h2).1
+  unfold dealloc
+  have : (s.cores.all (fun i => w.res.cores.getD i false) = true ∧ s.gpus.all (fun i => w.res.gpus.getD i false) = true) := by
+    constructor
+    · apply all_eq_true.mpr; intro i hi; simp [List.getD, c1 i hi]
+    · apply all_eq_true.mpr; intro i hi; simp [List.getD, c2 i hi]
+  rw [if_pos this]; rfl
+
+def wrun (w : WS) (ops : List AOp) : WS := ops.foldl wstep w
+
+def winit (ncores ngpus : Nat) : WS :=
+  { res := { cores := List.replicate ncores false, gpus := List.replicate ngpus false }, live := [] }
+
+theorem winv_run (ops : List AOp) : ∀ w, WInv w → WInv (wrun w ops) := by
+  induction ops with
+  | nil => intro w h; exact h
+  | cons op ops ih => intro w h; exact ih _ (winv_step w op h)
+
+theorem wlen_step (w : WS) (op : AOp) :
+    (wstep w op).res.cores.length = w.res.cores.length ∧ (wstep w op).res.gpus.length = w.res.gpus.length := by
+  cases op with
+  | accept c g =>
+    simp only [wstep]
+    cases ha : alloc w.res c g with
+    | assertion => exact ⟨rfl, rfl⟩
+    | wait => exact ⟨rfl, rfl⟩
+    | ok r s =>
+      obtain ⟨hr, _, _⟩ := alloc_ok _ _ _ _ _ ha
+      subst hr
+      exact ⟨setAll_length _ _ _, setAll_length _ _ _⟩
+  | finish s =>
+    simp only [wstep]
+    split
+    · cases hd : dealloc w.res s with
+      | none => exact ⟨rfl, rfl⟩
+      | some r =>
+        unfold dealloc at hd
+        split at hd
+        · injection hd with hd; subst hd
+          exact ⟨setAll_length _ _ _, setAll_length _ _ _⟩
+        · cases hd
+    · exact ⟨rfl, rfl⟩
+
+theorem wlen_run (ops : List AOp) : ∀ w,
+    (wrun w ops).res.cores.length = w.res.cores.length ∧ (wrun w ops).res.gpus.length = w.res.gpus.length := by
+  induction ops with
+  | nil => intro w; exact ⟨rfl, rfl⟩
+  | cons op ops ih =>
+    intro w
+    have := ih (wstep w op)
+    have h2 := wlen_step w op
+    exact ⟨by rw [show wrun w (op :: ops) = wrun (wstep w op) ops from rfl, this.1, h2.1],
+           by rw [show wrun w (op :: ops) = wrun (wstep w op) ops from rfl, this.2, h2.2]⟩
+
+/-- **C20 (allocator)**, for every stream of requests and every order of completions, failures and
+    timeouts: (a) no core and no GPU is in the slots of two running requests; (b) an accepted request
+    got exactly the cores and GPUs it asked for, none of them held by a running request;
+    (c) once every accepted request has given its slots back the worker is as it started -/
+theorem C20_alloc (nc ng : Nat) (ops : List AOp) :
+    let w := wrun (winit nc ng) ops
+    (w.live.map (·.cores)).Pairwise (fun a b => ∀ j, j ∈ a → j ∉ b)
+    ∧ (w.live.map (·.gpus)).Pairwise (fun a b => ∀ j, j ∈ a → j ∉ b)
+    ∧ (w.live = [] → w.res = (winit nc ng).res) := by
+  intro w
+  have hinv : WInv w := winv_run ops _ ⟨AInv_init nc, AInv_init ng⟩
+  refine ⟨hinv.1.2, hinv.2.2, ?_⟩
+  intro hl
+  have h1 := hinv.1; have h2 := hinv.2
+  rw [hl] at h1 h2
+  have e1 := AInv_empty _ h1
+  have e2 := AInv_empty _ h2
+  have hlen := wlen_run ops (winit nc ng)
+  have l1 : w.res.cores.length = nc := by have := hlen.1; simp only [winit, length_replicate] at this; exact this
+  have l2 : w.res.gpus.length = ng := by have := hlen.2; simp only [winit, length_replicate] at this; exact this
+  rw [l1] at e1; rw [l2] at e2
+  cases hw : w.res with
+  | mk cs gs =>
+    rw [hw] at e1 e2
+    simp only at e1 e2
+    simp [winit, e1, e2]
+
+theorem C20_alloc_grant (w : WS) (c g : Nat) (r : Res) (s : Slots) (h : WInv w) (ha : alloc w.res c g = .ok r s) :
+    s.cores.length = c ∧ s.gpus.length = g
+    ∧ (∀ j ∈ s.cores, ∀ s' ∈ w.live, j ∉ s'.cores) ∧ (∀ j ∈ s.gpus, ∀ s' ∈ w.live, j ∉ s'.gpus)
+    ∧ s.cores.Pairwise (· < ·) ∧ s.gpus.Pairwise (· < ·) := by
+  obtain ⟨_, hs, hc, hg, _⟩ := alloc_ok _ _ _ _ _ ha
+  subst hs
+  refine ⟨pick_length _ 0 c hc, pick_length _ 0 g hg, ?_, ?_, pick_sorted _ 0 c, pick_sorted _ 0 g⟩
+  · intro j hj s' hs'
+    exact (AInv_alloc _ _ c h.1).2 j hj _ (mem_map.mpr ⟨s', hs', rfl⟩)
+  · intro j hj s' hs'
+    exact (AInv_alloc _ _ g h.2).2 j hj _ (mem_map.mpr ⟨s', hs', rfl⟩)
+
+example : (wrun (winit 4 1) [.accept 2 1, .accept 2 0, .accept 1 0, .finish ⟨[0, 1], [0]⟩, .accept 1 1]).live
+    = [⟨[0], [0]⟩, ⟨[2, 3], []⟩] := by decide
+
+/-! ## (3) routing and target state -/
+
+/-- exit code 0 and only exit code 0 gives DONE; anything else, also an absent exit code, FAILED -/
 theorem C20_target (e : Option Int) : (targetState e = "DONE" ↔ e = some 0) ∧ (targetState e ≠ "DONE" → targetState e = "FAILED") := by
   unfold targetState
   cases e with
   | none => simp
   | some v => by_cases h : v = 0 <;> simp [h]
+
+/-- executable requests go to the pilot's normal execution path, everything else to the workers;
+    an executable request the master has seen is scheduled by the agent, not forwarded again (no loop);
+    raptor workers themselves are never forwarded -/
+theorem C20_route (m : Mode) (seen has : Bool) :
+    (masterRoute m = .agent ↔ m = .executable)
+    ∧ (masterRoute m = .workers ↔ m ≠ .executable)
+    ∧ schedRoute has .executable (masterSeen .executable seen) = .schedule
+    ∧ schedRoute has .raptorWorker seen = .schedule
+    ∧ (has = true → m ≠ .raptorWorker → seen = false → schedRoute has m seen = .toRaptor)
+    ∧ (has = false → schedRoute has m seen = .schedule) := by
+  cases m <;> cases seen <;> cases has <;> simp [masterRoute, masterSeen, schedRoute]
+
+
+/-! ## (2) life cycle of a request inside the worker (code after the repair: `flagCheck = true`) -/
+
+def wpDone : WP → Bool
+  | .put | .released | .exited => true
+  | _ => false
+
+def wpLock : WP → Bool
+  | .hasLock | .put => true
+  | _ => false
+
+/-- what holds in every reachable state, whatever the interleaving and wherever the timeout falls -/
+structure LInv (s : LS) : Prop where
+  watcher : s.watcher = true
+  flag    : s.doneFlag = wpDone s.wp
+  lock    : s.lock = (wpLock s.wp || decide (s.dp = .hasLock))
+  excl    : ¬ (wpLock s.wp = true ∧ s.dp = .hasLock)
+  count   : s.queued + s.answers = (if wpDone s.wp then 1 else 0) + (if s.wp = .killed then 1 else 0)
+  killed  : s.wp = .killed → s.dp = .done
+  pool    : s.inPool = decide (s.answers = 0)
+  held    : s.held = s.inPool
+
+theorem linv_init : LInv {} := by
+  constructor <;> simp [wpDone, wpLock]
+
+theorem linv_bound (s : LS) (h : LInv s) : s.queued + s.answers ≤ 1 := by
+  have h5 := h.count
+  cases hw : s.wp <;> simp [hw, wpDone] at h5 <;> omega
+
+theorem linv_step (s : LS) (c : LChoice) (h : LInv s) : LInv (lstep true s c) := by
+  have hb := linv_bound s h
+  obtain ⟨h1, h2, h3, h4, h5, h6, h7, h8⟩ := h
+  rcases s with ⟨wp, dp, lk, df, q, ip, hd, ans, wt⟩
+  simp only at h1 h2 h3 h4 h5 h6 h7 h8 hb
+  cases c with
+  | watcher =>
+    by_cases hq : q > 0
+    · have ha : ans = 0 := by omega
+      have hip : ip = true := by rw [h7, ha]; rfl
+      have : lstep true ⟨wp, dp, lk, df, q, ip, hd, ans, wt⟩ .watcher
+          = ⟨wp, dp, lk, df, q - 1, false, false, ans + 1, wt⟩ := by
+        simp [lstep, h1, hq, hip]
+      rw [this]
+      refine ⟨h1, h2, h3, h4, ?_, h6, ?_, rfl⟩
+      · simp only at h5 ⊢; omega
+      · simp [ha]
+    · have : lstep true ⟨wp, dp, lk, df, q, ip, hd, ans, wt⟩ .watcher = ⟨wp, dp, lk, df, q, ip, hd, ans, wt⟩ := by
+        simp [lstep, hq]
+      rw [this]
+      exact ⟨h1, h2, h3, h4, h5, h6, h7, h8⟩
+  | wp =>
+    rw [h1, h2, h3, h8, h7]
+    clear h1 h2 h3 h8 h7
+    cases wp <;> cases dp <;>
+      simp [wpDone, wpLock] at h4 h5 h6 ⊢ <;>
+      constructor <;> simp [lstep, wpDone, wpLock] <;>
+      (try split) <;> simp_all [wpDone, wpLock] <;> (first | rfl | omega | skip)
+  | dp =>
+    rw [h1, h2, h3, h8, h7]
+    clear h1 h2 h3 h8 h7
+    cases wp <;> cases dp <;>
+      simp [wpDone, wpLock] at h4 h5 h6 ⊢ <;>
+      constructor <;> simp [lstep, wpDone, wpLock] <;>
+      (try split) <;> simp_all [wpDone, wpLock] <;> (first | rfl | omega | skip)
+  | timeout =>
+    rw [h1, h2, h3, h8, h7]
+    clear h1 h2 h3 h8 h7
+    cases wp <;> cases dp <;>
+      simp [wpDone, wpLock] at h4 h5 h6 ⊢ <;>
+      constructor <;> simp [lstep, wpDone, wpLock] <;>
+      (try split) <;> simp_all [wpDone, wpLock] <;> (first | rfl | omega | skip)
+
+theorem linv_run (cs : List LChoice) : ∀ s, LInv s → LInv (lrun true s cs) := by
+  induction cs with
+  | nil => intro s h; exact h
+  | cons c cs ih => intro s h; exact ih _ (linv_step s c h)
+
+/-- nothing left to do: both processes are gone and the result queue is drained -/
+def Quiescent (s : LS) : Prop := (s.wp = .exited ∨ s.wp = .killed) ∧ s.dp = .done ∧ s.queued = 0
+
+instance (s : LS) : Decidable (Quiescent s) := by unfold Quiescent; infer_instance
+
+/-- **C20 (life cycle)**: for every interleaving of the rank process, the dispatch process, the
+    timeout and the result watcher, the watcher survives, the request is never answered twice, and
+    once everything has come to rest it was answered exactly once and its resources are returned -/
+theorem C20_once (cs : List LChoice) :
+    (lrun true {} cs).watcher = true ∧ (lrun true {} cs).answers ≤ 1
+    ∧ (Quiescent (lrun true {} cs) → (lrun true {} cs).answers = 1 ∧ (lrun true {} cs).held = false
+                                      ∧ (lrun true {} cs).inPool = false) := by
+  have h := linv_run cs {} linv_init
+  generalize lrun true {} cs = s at h
+  obtain ⟨h1, h2, h3, h4, h5, h6, h7, h8⟩ := h
+  refine ⟨h1, ?_, ?_⟩
+  · cases hw : s.wp <;> simp [hw, wpDone] at h5 <;> omega
+  · rintro ⟨hq1, hq2, hq3⟩
+    have ha : s.answers = 1 := by
+      rcases hq1 with hw | hw <;> simp [hw, wpDone, hq3] at h5 <;> omega
+    refine ⟨ha, ?_, ?_⟩
+    · rw [h8, h7]; simp [ha]
+    · rw [h7]; simp [ha]
+
+/-- every schedule can be completed: from the start, letting each party finish gives quiescence -/
+example : Quiescent (lrun true {} [.wp, .wp, .wp, .wp, .dp, .dp, .dp, .watcher]) := by decide
+example : Quiescent (lrun true {} [.timeout, .dp, .dp, .watcher]) := by decide
+
+/-- the race the repair removed: the rank process has queued its result and released the lock,
+    the join times out before the process has exited.  With the original test (`is_alive()`) a second
+    result is queued and the result watcher dies on it; with the recorded flag nothing of the kind -/
+theorem C20_race_witness :
+    (lrun false {} [.wp, .wp, .timeout, .wp, .dp, .dp, .watcher, .watcher]).watcher = false
+    ∧ (lrun true {} [.wp, .wp, .timeout, .wp, .dp, .dp, .watcher, .watcher]).watcher = true
+    ∧ (lrun true {} [.wp, .wp, .timeout, .wp, .dp, .dp, .watcher, .watcher]).answers = 1 := by decide
+
+/-! ## (4) dispatchers -/
+
+/-- exit code 0 exactly when the call succeeded, with its return value and captured output;
+    otherwise a non-zero code and the exception (captured output is still returned) -/
+theorem C20_dispatch (p : Proc) (te : List (Nat × Nat)) (pl : Payload) (rc : Bool) :
+    ((dispatchPy rc p te pl).1.ret = 0 ↔ ∃ v, pl.outcome = .returns v)
+    ∧ (∀ v, pl.outcome = .returns v → (dispatchPy rc p te pl).1.val = some v ∧ (dispatchPy rc p te pl).1.exc = none
+          ∧ (pl.rebinds = false → (dispatchPy rc p te pl).1.out = pl.out ∧ (dispatchPy rc p te pl).1.err = pl.err))
+    ∧ (∀ e, pl.outcome = .raises e → (dispatchPy rc p te pl).1.ret ≠ 0 ∧ (dispatchPy rc p te pl).1.exc = some e
+          ∧ (dispatchPy rc p te pl).1.val = none ∧ (pl.rebinds = false → (dispatchPy rc p te pl).1.out = pl.out)) := by
+  unfold dispatchPy
+  cases ho : pl.outcome with
+  | returns v => simp; intro h; simp [h]
+  | raises e => simp; intro h; simp [h]
+
+/-- whatever the request changed in the environment or the output streams is undone before the
+    next request runs (code after the repair) -/
+theorem C20_restore (p : Proc) (te : List (Nat × Nat)) (pl : Payload) : (dispatchPy true p te pl).2 = p := by
+  unfold dispatchPy; simp
+
+/-- the original restore left what the request had set in the process environment -/
+theorem C20_restore_witness :
+    (dispatchPy false { env := [], cenv := [], real := true, stdout := 1, stderr := 2 } []
+        { out := [], err := [], envEdits := [(1, some 2)], rebinds := false, outcome := .returns 0 }).2.cenv = [(1, 2)] := by decide
+
+/-- child processes: the exit code and the captured output are reported as they are -/
+theorem C20_dispatch_proc (out err : List Nat) (code : Nat) :
+    (dispatchProc out err code).ret = code ∧ (dispatchProc out err code).out = out ∧ (dispatchProc out err code).err = err := ⟨rfl, rfl, rfl⟩
 
 end RPVerif.C20
